@@ -353,7 +353,7 @@ class Run(Oracles):
             return pool.apply(func, **kw)
         it = w.make_iter(rm, {"n": spec.get("n", 0), "pull_ops": spec.get("pull_ops"), "as_list": spec.get("as_list"),
                               "raise_at": spec.get("iter_raise_at", -1), "fault_kind": spec.get("fault_kind", 0), "shapes": spec.get("shapes"),
-                              "as_cursor": spec.get("as_cursor")})
+                              "as_cursor": spec.get("as_cursor"), "hint": spec.get("hint")})
         if "nc" in spec:
             kw["num_concurrent"] = inf if spec["nc"] == "inf" else spec["nc"]
         return getattr(pool, kind)(func, it, **kw)
